@@ -25,7 +25,10 @@ from .models import (
     WSMsgType,
 )
 
-ALLOWED_CLOSE_CODES: Final[set[int]] = {int(i) for i in WSCloseCode}
+# 1006 is reserved: it must never appear in a close frame on the wire (RFC 6455 7.4.1)
+ALLOWED_CLOSE_CODES: Final[set[int]] = {
+    int(i) for i in WSCloseCode if i is not WSCloseCode.ABNORMAL_CLOSURE
+}
 
 # States for the reader, used to parse the WebSocket frame
 # integer values are used so they can be cythonized
